@@ -141,6 +141,23 @@ macro_rules! build_indexed {
                     }
                 }
             }
+            if garbage && rng.chance(1, 2) {
+                // the graph moves into a destination that has its own history (a vacant edge slot), then the free
+                // list is used once: an insertion that is taken back again
+                let mut d: $G<i32, E, Ty, u32> = $G::with_capacity(0, 0);
+                let a = d.add_node(-1);
+                let b = d.add_node(-1);
+                let e0 = d.add_edge(a, b, E::from_i64(GARBAGE_W));
+                d.add_edge(b, a, E::from_i64(GARBAGE_W));
+                d.remove_edge(e0);
+                d.clone_from(&g);
+                g = d;
+                let all: Vec<NodeIndex<u32>> = g.node_indices().collect();
+                if !all.is_empty() {
+                    let x = g.add_edge(all[0], all[all.len() - 1], E::from_i64(GARBAGE_W));
+                    g.remove_edge(x);
+                }
+            }
             // node weights identify the abstract nodes whatever renumbering happened
             let mut fwd = vec![NodeIndex::new(0); ag.n];
             for a in g.node_indices() {
